@@ -375,7 +375,7 @@ fn run(args: &Args, rep: &mut Report) {
     let mut acc = Acc::new();
     let fixed = [
         "", "\n", "\n\n", "a", "a\n", "a\r\n", "a\r\nb", "\r\n", "a\rb", "a\r", "\x1b[1ma\r\x1b[0m\nb", "a\r\x1b[1m\n\x1b[31mb", "&<>\"'", "]]>", "\x1b[7mx\x1b[0my",
-        "\x1b[41m \x1b[0m\n\x1b[7;32m&\x1b[m", "\x1b[38;5;1;48;2;3;4;5;58;5;6;4:3mz", "\t|\t", "漢字\x1b[44m😀\x1b[0m\u{301}", "\x1b[1m\x1b[0m", "\x1b[41m\n\x1b[0m", "a\x1b[1mb\r\x1b[0m\nc", "x\n\x1b[31my\r\x1b[39m\nz", "\r\x1b[1m\r\x1b[0m\n", "a\r\x1b[1m\x1b[3m\n",
+        "\x1b[41m \x1b[0m\n\x1b[7;32m&\x1b[m", "\x1b[38;5;1;48;2;3;4;5;58;5;6;4:3mz", "\t|\t", "漢字\x1b[44m😀\x1b[0m\u{301}", "\x1b[1m\x1b[0m", "\x1b[41m\n\x1b[0m", "a\x1b[1mb\r\x1b[0m\nc", "x\n\x1b[31my\r\x1b[39m\nz", "\r\x1b[1m\r\x1b[0m\n", "a\r\x1b[1m\x1b[3m\n", "X\x1b[1m\x1b[0mX", "[\x1b[32m#\x1b[0m\x1b[32m#\x1b[0m\x1b[32m#\x1b[0m]", "\x1b[7mX\x1b[0;30;47mX",
     ];
     let big: Vec<String> = vec![
         "a\n".repeat(255),
@@ -403,7 +403,7 @@ fn run(args: &Args, rep: &mut Report) {
         }
     }
     acc.samples.push(json!({"text": "a\\r\\x1b[1m\\n\\x1b[31mb"}));
-    rep.add("corner-cases", true, "25 hand-picked texts (empty, CR/LF placements, XML specials, invert, all colour slots) and 6 large ones (255 / 256 / 257 / 1001 lines, a 70 000-character line, 300 differently coloured spans) x 2 configurations", vec![acc]);
+    rep.add("corner-cases", true, "28 hand-picked texts (empty, CR/LF placements, XML specials, invert, all colour slots) and 6 large ones (255 / 256 / 257 / 1001 lines, a 70 000-character line, 300 differently coloured spans) x 2 configurations", vec![acc]);
 
     // colour-class collisions: many RGB colours in one document whose components are chosen so
     // that unpadded / concatenated spellings of the class name would coincide
